@@ -29,7 +29,7 @@ def run(R):
         R.violation("harness does not build against /repo", {"build_log": R.harness_log[-3000:]}, no_input=True)
         return
     corpus = vlib.load_corpus(PID)
-    n = 1500 if R.tier == "quick" else 40000
+    n = 1500 if R.tier == "quick" else 120000
     cases = corpus + [gen_case(R.rng) for _ in range(n)]
     impl, model, nbad = rc.check_correspondence(R, exe, cases, "route matching conditions / captured values")
     st = rc.stats_sum(model)
